@@ -68,12 +68,16 @@ def deregister (s : Subject) (ep : Nat) (path : String) (tok : Bytes) : Subject 
   { s with resources := modifyRes s.resources path (fun r =>
       { r with observers := removeFirst (fun x => x.endpoint == ep && x.token == tok) r.observers }) }
 
+/-- `sequence.wrapping_add(1)` on the `u32` sequence number (after the D18 fix; RFC 7641 §3.4 and
+§4.4: Observe sequence numbers wrap and are compared modulo) -/
+def seqNext (n : Nat) : Nat := (n + 1) % 2 ^ 32
+
 /-- `resource_changed(path, message_id, is_confirmable)` -/
 def resourceChanged (s : Subject) (path : String) (mid : Nat) (con : Bool) : Subject :=
   { s with resources := modifyRes s.resources path (fun r =>
       let obs := r.observers.map (fun o =>
         { o with mid := some mid, unacked := if con then o.unacked + 1 else o.unacked })
-      { sequence := r.sequence + 1,
+      { sequence := seqNext r.sequence,
         observers := obs.filter (fun o => o.unacked ≤ s.limit) }) }
 
 /-- reset the first observer (per resource) from `ep` whose pending id is `mid` -/
